@@ -247,7 +247,8 @@ def enabled(m, keys, vals, nest):
                 ops.append(('addr', var, k, v))
             ops.append(('addl', var, k, vals[(keys.index(k)) % len(vals)]))
             ops.append(('find', var, k))
-            ops.append(('index', var, k))
+            if k[0] != 'c':         # a list of one character is a string in Klong: `d@,0ca` is `d@"a"`, not Index by a key list
+                ops.append(('index', var, k))
             if k is not ks[0]:
                 ops.append(('index2', var, k, ks[0]))
             ops.append(('drop', var, k))
